@@ -2,7 +2,7 @@
    lazy / cached resolver refines the mode-independent specification along any history *)
 From Coq Require Import ZArith List Bool Lia Permutation Sorting.Sorted.
 Import ListNotations.
-From SCMO Require Import Lib.Val Model.C18 Proofs.C18_a Proofs.C18_b Proofs.C18_c.
+From SCMO Require Import Lib.Val Gen.GenAlleles Model.C18 Proofs.C18_s Proofs.C18_a Proofs.C18_b Proofs.C18_c.
 Open Scope Z_scope.
 
 (* ------------------------------------------------------------------ loaded tables are well formed *)
@@ -244,9 +244,9 @@ Proof.
   unfold same_sem. rewrite !andb_true_iff. intros [[Hp Hs] Hi]. apply eqb_prop in Hp.
   pose proof (sel_same_mem cf1 cf2 Hs) as Hsel. pose proof (ign_same_mem _ _ Hi) as Hign.
   assert (Hscan : scan_rec cf1 r = scan_rec cf2 r).
-  { unfold scan_rec. apply fold_left_ext'. intros st g. unfold scan_sample. rewrite Hsel. reflexivity. }
-  unfold informative. rewrite <- Hp. destruct (c_phased cf1).
-  - unfold phased_site. rewrite <- Hscan.
+  { unfold scan_rec. apply fold_left_ext'. intros st g. unfold scan_sample. rewrite !gselected_shape, Hsel. reflexivity. }
+  rewrite !informative_shape. unfold informative_ref. rewrite <- Hp. destruct (c_phased cf1).
+  - unfold phased_site_ref. rewrite <- Hscan.
     assert (Hb : match c_select cf1 with
                  | Some sel => if s_used (scan_rec cf1 r) then (if (length (s_assigned (scan_rec cf1 r)) =? length sel)%nat then s_bad (scan_rec cf1 r) else true) else s_bad (scan_rec cf1 r)
                  | None => s_bad (scan_rec cf1 r) end
@@ -258,6 +258,6 @@ Proof.
       apply Nat.eqb_eq in Hl. rewrite Hl. reflexivity. }
     rewrite Hb. rewrite !ignored_list.
     rewrite (existsb_ext_fun _ _ (s_bm (scan_rec cf1 r)) (fun kv => Hign (r_ref r) (fst kv))). reflexivity.
-  - destruct (unphased_site r) as [[bm used] bad]. rewrite !ignored_list.
+  - destruct (unphased_site_ref r) as [[bm used] bad]. rewrite !ignored_list.
     rewrite (existsb_ext_fun _ _ bm (fun kv => Hign (r_ref r) (fst kv))). reflexivity.
 Qed.
